@@ -31,7 +31,11 @@ import (
 func init() { drivers["c02t"] = driveC02T }
 
 type c02tScn struct {
-	Kind   string `json:"kind"` // live_play_tcp | live_play_udp | live_record_tcp | live_record_udp | silent_play_udp | silent_record_udp | control_only_play_udp
+	// live_play_tcp | live_play_udp | live_record_tcp | live_record_udp | silent_play_udp |
+	// silent_record_udp | control_only_play_udp | slow_record_udp (RECORD comes more than a read
+	// timeout after ANNOUNCE, media one check period later) | repause_record_udp (RECORD, PAUSE, a
+	// pause longer than the read timeout, RECORD, media one check period later)
+	Kind   string `json:"kind"`
 	IdleMs int    `json:"idle"`
 	ReadMs int    `json:"read"`
 	PerMs  int    `json:"period"`
@@ -48,7 +52,8 @@ func driveC02T(a *args, s *vt.Sink) error {
 		scns = []c02tScn{sc}
 	} else {
 		kinds := []string{"live_play_tcp", "live_play_udp", "live_record_tcp", "live_record_udp",
-			"silent_play_udp", "silent_record_udp", "control_only_play_udp"}
+			"silent_play_udp", "silent_record_udp", "control_only_play_udp",
+			"slow_record_udp", "repause_record_udp"}
 		grid := [][3]int{{3000, 2000, 200}}
 		if a.tier == "thorough" {
 			grid = [][3]int{{2000, 2000, 200}, {3000, 2000, 500}, {2000, 3000, 1000}, {6000, 2000, 200}, {7000, 2500, 300}}
@@ -147,7 +152,7 @@ func c02tRun(sc *c02tScn, s *vt.Sink) error {
 			}
 		}
 		tr.Emit("live", "kind", sc.Kind, "ms", int(time.Since(t0).Milliseconds()), "expired", expired)
-	case "silent_play_udp", "silent_record_udp", "control_only_play_udp":
+	case "silent_play_udp", "silent_record_udp", "control_only_play_udp", "slow_record_udp", "repause_record_udp":
 		peer, err := bd.Dial()
 		if err != nil {
 			return err
@@ -187,7 +192,7 @@ func c02tRun(sc *c02tScn, s *vt.Sink) error {
 			return err
 		}
 		defer u2.Close()
-		record := sc.Kind == "silent_record_udp"
+		record := sc.Kind == "silent_record_udp" || sc.Kind == "slow_record_udp" || sc.Kind == "repause_record_udp"
 		setup := func(track int) error {
 			th := headers.Transport{Protocol: headers.TransportProtocolUDP}
 			d := headers.TransportDeliveryUnicast
@@ -209,8 +214,57 @@ func c02tRun(sc *c02tScn, s *vt.Sink) error {
 			if err := setup(0); err != nil {
 				return err
 			}
+			// a live publisher: media every 250 ms from the negotiated RTP port
+			seq := uint16(100)
+			media := func() {
+				seq++
+				pkt := &rtp.Packet{Header: rtp.Header{Version: 2, PayloadType: 96, SequenceNumber: seq,
+					Timestamp: uint32(seq) * 3000, SSRC: 0x0C02C02C}, Payload: []byte{0x41, 1, 2, 3}}
+				if buf, err := pkt.Marshal(); err == nil {
+					u1.WriteTo(buf, &net.UDPAddr{IP: net.ParseIP(bd.IP), Port: bd.UDPPort}) //nolint:errcheck
+				}
+			}
+			keepalive := func(d time.Duration) { // control-path keep-alives while nothing streams
+				for t := time.Now(); time.Since(t) < d; {
+					time.Sleep(400 * time.Millisecond)
+					do(&base.Request{Method: base.GetParameter, URL: bed.MustURL(url)}) //nolint:errcheck
+				}
+			}
+			if sc.Kind == "slow_record_udp" {
+				keepalive(time.Duration(sc.ReadMs+600) * time.Millisecond) // a slow handshake
+			}
 			if err := do(&base.Request{Method: base.Record, URL: bed.MustURL(url)}); err != nil {
 				return err
+			}
+			if sc.Kind == "repause_record_udp" {
+				for i := 0; i < 4; i++ {
+					media()
+					time.Sleep(100 * time.Millisecond)
+				}
+				if err := do(&base.Request{Method: base.Pause, URL: bed.MustURL(url)}); err != nil {
+					return err
+				}
+				keepalive(time.Duration(sc.ReadMs+600) * time.Millisecond)
+				if err := do(&base.Request{Method: base.Record, URL: bed.MustURL(url)}); err != nil {
+					return err
+				}
+			}
+			if sc.Kind == "slow_record_udp" || sc.Kind == "repause_record_udp" {
+				// the first packet comes a little more than one check period after RECORD - well
+				// within the read timeout - and the publisher then keeps sending
+				t0 := time.Now()
+				time.Sleep(time.Duration(sc.PerMs+150) * time.Millisecond)
+				expired := false
+				for time.Since(t0) < obs && !expired {
+					media()
+					select {
+					case <-closedAt:
+						expired = true
+					case <-time.After(250 * time.Millisecond):
+					}
+				}
+				tr.Emit("live", "kind", sc.Kind, "ms", int(time.Since(t0).Milliseconds()), "expired", expired)
+				break
 			}
 			timeout = sc.ReadMs // RECORD over UDP: no packets for ReadTimeout
 		} else {
